@@ -308,6 +308,12 @@ pub fn gen_c03(rng: &mut Rng, tier: Tier) -> C03Plan {
         0 => (rng.range(1, 16) as u16, rng.range(1, 16) as u16),          // one macroblock
         1 => (rng.range(1, 16) as u16, rng.range(17, 80) as u16),         // single column
         2 => (rng.range(17, 80) as u16, rng.range(1, 16) as u16),         // single row
+        3 if rng.chance(1, 6) => {
+            // long rows / tall columns: more than 16 macroblocks in one dimension, sizes above 255
+            let long = rng.range(257, if tier == Tier::Quick { 330 } else { 420 }) as u16;
+            let short = rng.range(1, 33) as u16;
+            if rng.bool() { (long, short) } else { (short, long) }
+        }
         _ => gen_size(rng, class),
     };
     let (fl, w, h) = flavour_for(rng, &cfg, w, h);
